@@ -47,11 +47,12 @@ ASSUMPTIONS = [
     "the pinned component version names an existing component build and never decreases along a parent edge",
     "commit times of both repositories within one day, or (groups with time levels) spread over days with every "
     "parent commit newer than the oldest report-related component build minus one day (the component cut-off window)",
-    "one component per parent in part A; dependency graphs in part B use stub repositories",
+    "one component per parent in part A (two in the three-repository family); dependency graphs in part B use stubs",
     "a component build that lists no commit of its own (merge of two built side lines) may or may not be recorded; "
     "if it is, only at a first parent build that ships it",
 ]
-REQUIRED_FEATURES = ["A:commit-times-spread-over-days", "A:oldest-report-build-in-later-sorted-component-branch",
+REQUIRED_FEATURES = ["A:parent-pins-two-components", "A:both-components-have-shipped-report-builds",
+                     "A:commit-times-spread-over-days", "A:oldest-report-build-in-later-sorted-component-branch",
                      "A:shipping-parent-build-days-before-first-branch-report-builds", "A:component-merge", "A:side-line-build-shipped-after-main-line-build",
                      "A:side-line-shares-ancestor-build-with-shipped-main-line",
                      "A:component-commit-built-twice", "A:pin-names-second-build-of-a-commit",
@@ -243,13 +244,19 @@ def bounds(tier):
                                             "component build") if g[8] == "levels" else "all within one day"}
                           for g in _A_GROUPS[tier]],
         "pins": "every assignment naming an existing component build and never decreasing along a parent edge",
+        "part_A_three_repositories": "app pins lib (linear, up to %d commits) and lib2 (linear, up to 2 commits), parent "
+                                     "up to 2 commits, every tag set and every pair of monotone pin assignments"
+                                     % (3 if tier == "thorough" else 2),
         "part_B_groups": [{"ids": g[0], "self_loops": g[1], "supply_orders": g[2], "absent_dependencies": g[3],
                            "shards": g[4]} for g in _B_GROUPS[tier]],
     }
 
 
+_A3_SHARDS = {"quick": 16, "thorough": 64}
+
+
 def shards(tier):
-    out = []
+    out = [("A3", 0, j) for j in range(_A3_SHARDS[tier])]
     for gi, g in enumerate(_A_GROUPS[tier]):
         out += [("A", gi, j) for j in range(g[6])]
     for gi, g in enumerate(_B_GROUPS[tier]):
@@ -263,15 +270,15 @@ T2 = "BUG-8"          # contained in the messages of some commits that do not ma
 _HISTORIES = {"single": [[T1]], "repeat": [[T1], [T1, T1], [T2, T1], [T1, T2]], "levels": [[T1]]}
 
 
-def _judge_report(comp, par, report, compare_printed, info):
+def _judge_report(comp, par, report, compare_printed, info, lib="lib", repos=("app", "lib")):
     """One report of a two-repository collection against the reference. comp/par carry the matching sets
     valid for the text of this request."""
     problems = []
     rg = dict(report.data)
-    if sorted(rg) != ["app", "lib"] or len(report.data) != 2:
+    if sorted(rg) != sorted(repos) or len(report.data) != len(repos):
         return [("report-repositories", "the report does not hold each repository once",
-                 [r for r, _g in report.data], ["app", "lib"])]
-    lib_rg, app_rg = rg["lib"], rg["app"]
+                 [r for r, _g in report.data], sorted(repos))]
+    lib_rg, app_rg = rg[lib], rg["app"]
     # ---- the component's own report must be right (C06 reference); it says which builds are report-related
     ref_builds, comp_exp = gm.c07_component_builds(comp)
     if ref_builds is None or comp.get("tags2") or any(len(p) == 2 for p in comp["parents"]):
@@ -329,7 +336,7 @@ def _judge_report(comp, par, report, compare_printed, info):
     for rb in app_rg.branches:
         for b in rb.get_rbuilds_list():
             if b.rcommit is not None:
-                bump = b.bumps.get("lib")
+                bump = b.bumps.get(lib)
                 shown[(rb.branch_name, b.rcommit.commit.intid)] = (
                     str(b.build_num), None if bump is None else str(bump.to_buildnum),
                     [rc.commit.intid for rc in b.get_printable_rcommits()])
@@ -350,7 +357,7 @@ def _judge_report(comp, par, report, compare_printed, info):
         try:
             pp = gm.parse_printed(str(report))
             for rb in lib_rg.branches:
-                pblds = dict((b[0], b) for b in next(x[1] for x in pp["lib"] if x[0] == rb.branch_name))
+                pblds = dict((b[0], b) for b in next(x[1] for x in pp[lib] if x[0] == rb.branch_name))
                 for b in rb.get_rbuilds_list():
                     lab = gm.printed_label("not-merged" if b.rcommit is None else "build", str(b.build_num))
                     want = [f"{x[0]} {x[1]} {gm.printed_label('build', str(x[2]))}" for x in b.included_at]
@@ -399,10 +406,16 @@ def check_scenario(case, acc, compare_printed=False):
     comp, par = case["comp"], case["par"]
     texts = case.get("texts") or [T1]
     info = {}
+    comp2 = case.get("comp2")
     try:
         with gm.cpu_limit(5.0):
-            coll = gm.two_repo_collection(gm.c07_comp_spec(comp), gm.c07_parent_spec(par, comp),
-                                          order=tuple(case.get("order", ("app", "lib"))))
+            if comp2 is not None:
+                coll = gm.three_repo_collection(gm.c07_comp_spec(comp), gm.c07_comp_spec(comp2, name="lib2"),
+                                                gm.c07_parent_spec(par, comp, comp2=comp2),
+                                                order=tuple(case.get("order", ("app", "lib", "lib2"))))
+            else:
+                coll = gm.two_repo_collection(gm.c07_comp_spec(comp), gm.c07_parent_spec(par, comp),
+                                              order=tuple(case.get("order", ("app", "lib"))))
     except gm.Hang:
         return [("hangs", "ReposCollection does not terminate (5 s CPU)", "no result", "a collection")], info
     except Exception as e:  # noqa
@@ -416,7 +429,16 @@ def check_scenario(case, acc, compare_printed=False):
         try:
             with gm.cpu_limit(5.0):
                 report = coll.make_report(text)
-            problems = _judge_report(comp_t, par_t, report, compare_printed, info)
+            if comp2 is not None:
+                # a parent pinning two components: each component's builds are judged on their own
+                repos = ("app", "lib", "lib2")
+                info2 = {}
+                problems = _judge_report(comp_t, par_t, report, False, info, "lib", repos)
+                p2 = _judge_report(comp2, dict(par_t, pins=par["pins2"]), report, False, info2, "lib2", repos)
+                problems += [("second-component/" + q[0],) + tuple(q[1:]) for q in p2]
+                info["req2"] = info2.get("req", {})
+            else:
+                problems = _judge_report(comp_t, par_t, report, compare_printed, info)
         except gm.Hang:
             problems = [("hangs", "make_report does not terminate (5 s CPU)", "no result", "a report")]
         except Exception as e:  # noqa
@@ -455,6 +477,10 @@ def _features_A(case, info):
                 f.add("A:shipping-parent-build-days-before-first-branch-report-builds")
         if any(plv[pc - 1] < lv[key[1] - 1] for key, items in req.items() for _pb, _l, pc in items):
             f.add("A:parent-build-older-than-component-build-it-ships")
+    if case.get("comp2") is not None:
+        f.add("A:parent-pins-two-components")
+        if any(req.values()) and any(info.get("req2", {}).values()):
+            f.add("A:both-components-have-shipped-report-builds")
     if len(par["heads"]) == 2:
         f.add("A:parent-two-branches")
     if any(len(p) == 2 for p in par["parents"]):
@@ -736,8 +762,53 @@ def _too_many_hangs(acc, problems):
     return False
 
 
+def _run_A3(shard, tier, acc):
+    """Three repositories: app pins lib and lib2 (both linear, up to 2 commits; thorough: lib up to 3)."""
+    _p, _gi, j = shard
+    k = _A3_SHARDS[tier]
+    comps1 = _linear_comps(3 if tier == "thorough" else 2)
+    comps2 = _linear_comps(2)
+    shapes = []
+    for n in (1, 2):
+        shapes += [(n, p, h) for p, h in _parent_shapes(n, PB1, True)]
+    if tier == "thorough":
+        shapes += [(2, p, h) for p, h in _parent_shapes(2, PB2, True)]
+    idx = -1
+    for comp in comps1:
+        rc1 = gm.reach_masks(comp["parents"])
+        for comp2 in comps2:
+            rc2 = gm.reach_masks(comp2["parents"])
+            idx += 1
+            if idx % k != j:
+                continue
+            if acc.expired():
+                return
+            for n, parents, heads in shapes:
+                ids = list(range(1, n + 1))
+                pins1 = list(gm.enumerate_pins(parents, gm.c07_versions(comp), rc1))
+                pins2 = list(gm.enumerate_pins(parents, gm.c07_versions(comp2), rc2))
+                for tags in gm.subsets(ids):
+                    for p1 in pins1:
+                        for p2 in pins2:
+                            case = {"part": "A", "comp": comp, "comp2": comp2,
+                                    "par": {"parents": parents, "heads": heads, "tags": tags, "match": [],
+                                            "pins": p1, "pins2": p2}}
+                            problems, info = check_scenario(case, acc, False)
+                            feats, nontriv = _features_A(case, info)
+                            nship = sum(len(v) for v in info.get("req", {}).values()) + \
+                                sum(len(v) for v in info.get("req2", {}).values())
+                            acc.case(nontrivial=nontriv, features=tuple(feats),
+                                     outcome=f"A3 ships={nship}" + (" VIOLATION" if problems else ""))
+                            if problems:
+                                _report(acc, case, problems)
+                                if _too_many_hangs(acc, problems):
+                                    return
+
+
 def run_shard(shard, tier, seed, acc):
-    if shard[0] == "A":
+    if shard[0] == "A3":
+        _run_A3(shard, tier, acc)
+    elif shard[0] == "A":
         _run_A(shard, tier, acc)
     else:
         _run_B(shard, tier, acc)
